@@ -11,7 +11,7 @@ C14_COLOURS = "[style.colors]\nprimary = \"#000000\"\nerror = \"#FFfe01\"\nhighl
 PROPS = {
     "C01": {
         "timeouts_not_mine": True,
-        "lean_modules": ["Props.Clean", "Props.Cells", "Props.Facts19", "Props.C01p"],
+        "lean_modules": ["Props.Clean", "Props.Cells", "Props.Facts19", "Props.C01p", "Props.Gen01p", "Props.GenT01p"],
         "groups": [{"name": "render", "quick": 2500, "thorough": 60000}, {"name": "C01misc", "quick": 2000, "thorough": 60000},
                    {"name": "C14", "quick": 1500, "thorough": 40000}, {"name": "C06", "quick": 1200, "thorough": 30000, "workers": 12},
                    {"name": "present", "quick": 800, "thorough": 20000, "workers": 12},
@@ -367,7 +367,7 @@ PROPS = {
 
 MANIFEST_TEXT = {
     "C01": {
-        "text": "Lean theorems: Scrub leaves no control character but newline; clean styled text (printable characters, newlines, well-formed SGR around single characters) is terminal-safe and is closed under the whole style layer, every layout function and the HTML/Markdown, gemtext and plain-text renderers for every forest (arbitrary strings in text nodes and attributes), source and width; error text through style.Problem and the status line through SetLength are safe for every message; accepted configurations have well-formed colours. Tied to the code by differential correspondence on the renderers, style.Problem, Scrub, SetLength; the Safe predicate is evaluated on every implementation output.",
+        "text": "Lean theorems: Scrub leaves no control character but newline; clean styled text (printable characters, newlines, well-formed SGR around single characters) is terminal-safe and is closed under the whole style layer, every layout function and the HTML/Markdown, gemtext and plain-text renderers for every forest (arbitrary strings in text nodes and attributes), source and width; error text through style.Problem and the status line through SetLength are safe for every message; accepted configurations have well-formed colours. What an item shows (String, Preview, Name of Post, Actor, Activity, Failure with header, center, supplement, footer, Collection.Size, style.Problem, ansi.Scrub) is translated to Lean on every run (extract/go2lean21.go -> Generated/GoPresent.lean) and proved equal to the presentation model for every field content, width and colours, without panics (Props/Gen01p.lean), so the item-level cleanliness theorems hold of the translated code (Props/GenT01p.lean). Otherwise tied to the code by differential correspondence on the renderers, style.Problem, Scrub, SetLength; the Safe predicate is evaluated on every implementation output.",
         "design_ref": "DESIGN.md §5 C01",
         "note": "Trusted: Lean kernel; correspondence check (testing); x/net/html, goldmark; element names are control-free; URL.Host of dialled hosts.",
         "technique": "Lean 4 proof (Clean invariant, mutual induction over the renderer) + differential correspondence with a safety predicate on every output",
